@@ -19,6 +19,9 @@ Proof. intros H. unfold has, setb. apply Z.setbit_eq. exact H. Qed.
 Lemma has_u32 m b : 0 <= b < 32 -> has (u32 m) b = has m b.
 Proof. intros H. unfold has, u32. apply Z.mod_pow2_bits_low. lia. Qed.
 
+Lemma u32_range_flags z : 0 <= u32 z < 2 ^ 32.
+Proof. unfold u32. apply Z.mod_pos_bound. reflexivity. Qed.
+
 Lemma clrb_noop m b : has m b = false -> clrb m b = m.
 Proof.
   unfold has, clrb. intros H. apply Z.bits_inj'. intros n Hn.
